@@ -21,6 +21,10 @@ func ResetPtrOrder() {
 	ptrOrderMu.Unlock()
 }
 
+// NotePtr numbers a pointer key at the moment it is stored in a map (program order, hence
+// deterministic); MapKeys orders pointer keys by this number.
+func NotePtr(k interface{}) { ptrRank(k) }
+
 func ptrRank(k interface{}) int {
 	ptrOrderMu.Lock()
 	defer ptrOrderMu.Unlock()
